@@ -213,3 +213,32 @@ func H07n_q() {
 	}
 	vAssert(same == (c0 == c1), "two admitted config cases get the same name prefix exactly when they are the same case")
 }
+
+// H07d: a value listed twice in one of the suite's relevant lists (legal in the schema: the lists are plain
+// repeated fields) admits the same cases as listing it once.
+func H07d_q() {
+	vSetEnumLists()
+	s := &conformancev1.TestSuite{Name: "S",
+		RelevantHttpVersions: []conformancev1.HTTPVersion{1},
+		RelevantProtocols:    []conformancev1.Protocol{1},
+		RelevantCodecs:       []conformancev1.Codec{1},
+		RelevantCompressions: []conformancev1.Compression{1},
+	}
+	switch vInt("dup", 0, 3) {
+	case 0:
+		s.RelevantHttpVersions = append(s.RelevantHttpVersions, 1)
+	case 1:
+		s.RelevantProtocols = append(s.RelevantProtocols, 1)
+	case 2:
+		s.RelevantCodecs = append(s.RelevantCodecs, 1)
+	default:
+		s.RelevantCompressions = append(s.RelevantCompressions, 1)
+	}
+	s.TestCases = []*conformancev1.TestCase{{Request: &conformancev1.ClientCompatRequest{TestName: "the-test", StreamType: 1}}}
+	c0 := configCase{Version: 1, Protocol: 1, Codec: 1, Compression: 1, StreamType: 1, UseTLS: vBool("c0.tls")}
+	lib, err := newTestCaseLibrary(map[string]*conformancev1.TestSuite{"f.yaml": s}, []configCase{c0}, conformancev1.TestSuite_TEST_MODE_CLIENT)
+	vAssert(err == nil, "a relevant list that names a value twice is expanded without error")
+	if err == nil {
+		vAssert(len(lib.testCases) == 1, "exactly one permutation exists for the one admitted config case")
+	}
+}
